@@ -242,3 +242,17 @@ def random_version(rng: random.Random) -> Version:
     if rng.random() < 0.2:
         s += f".dev{rng.choice([0, 1, 2])}"
     return Version(s)
+
+
+def _gap_grid():
+    """versions clustered around the bases used by the adjacent-gap probes, every suffix shape (sanity check of the successor table)"""
+    out = []
+    for base in ("1.0", "2.1", "1!3.0", "0", "3.9", "1.0.0.1", "1.0.1", "2.1.1", "1!3.0.1", "0.0.1", "3.9.1"):
+        for suf in ("", ".dev0", ".dev1", "a0", "a1", "a1.dev0", "a1.post0", "a1.post0.dev0", "a1.post0.dev1", "a2", "b0", "rc0", "rc2", "rc2.dev0", "rc2.post0.dev0",
+                    "rc2.post0.dev1", "rc2.post0", "rc3", ".post0.dev0", ".post0.dev1", ".post0", ".post1.dev0", ".post1", ".post3", ".post3.dev0", ".post4.dev0",
+                    ".post4.dev1", ".post4", ".post3.dev9"):
+            out.append(base + suf)
+    return out
+
+
+GAP_GRID = _gap_grid()
